@@ -153,7 +153,7 @@ class ShimLock(object):
         s = CUR
         if s is not None and s.mode == RUN:
             me = s.by_ident.get(_get_ident())
-            if me is not None:
+            if me is not None and not me.finished:
                 return s.op_acquire(me, self, blocking, timeout)
         return self._acquire_passthrough(s, blocking)
 
@@ -179,7 +179,7 @@ class ShimLock(object):
         s = CUR
         if s is not None and s.mode == RUN:
             me = s.by_ident.get(_get_ident())
-            if me is not None:
+            if me is not None and not me.finished:
                 return s.op_release(me, self)
         self.owner = None
 
@@ -261,7 +261,7 @@ class ShimThread(object):
         s = CUR
         if s is not None and s.mode == RUN:
             me = s.by_ident.get(_get_ident())
-            if me is not None:
+            if me is not None and not me.finished:
                 return s.op_join(me, self, timeout)
         if s is not None and s.mode == TEARDOWN:
             t = s.by_ident.get(_get_ident())
@@ -320,7 +320,7 @@ def _sleep(d):
     s = CUR
     if s is not None and s.mode == RUN:
         me = s.by_ident.get(_get_ident())
-        if me is not None:
+        if me is not None and not me.finished:
             return s.op_sleep(me, d)
     if s is not None and s.mode == TEARDOWN:
         t = s.by_ident.get(_get_ident())
